@@ -434,13 +434,19 @@ def check_property(prop, tier, seed):
                     shutil.copy(mpath, final)
                     if os.path.basename(mpath).startswith("tmp-min-"):
                         os.remove(mpath)
+                except Exception:
+                    try:
+                        shutil.copy(path, final)      # never report a path inside the temporary directory
+                    except Exception:
+                        final = path
+                try:
                     # the replay file names the build flavour and the property: `check.py --replay` needs both
                     rpj = json.load(open(final))
                     rpj["flavour"] = job.flavour
                     rpj["property"] = vp
                     json.dump(rpj, open(final, "w"), indent=0)
-                except Exception:
-                    final = path
+                except Exception as e:
+                    log("  (could not annotate %s with flavour/property: %s)" % (final, e))
                 out_lines.append("VIOLATION property=%s replay=%s" % (vp, final))
                 log("  class=%s seed=%s run=%s: %s" % (v["vclass"], v.get("seed"), v.get("run"), v.get("msg", "")[:300]))
                 final_viol.append({"property": vp, "class": v["vclass"], "msg": v.get("msg", "")[:500], "replay": final, "run": v.get("run")})
